@@ -121,6 +121,13 @@ def set_subscript(ip, st, obj, idx, v):
         f = ip.getattr(st, obj, "__setitem__")
         return ip.call(st, f, [idx, v])
     if isinstance(obj, DRef):
+        idx = st.force(idx)
+        if isinstance(idx, SAtom):
+            # `d[k] = v` with k one of finitely many constants (shapes.Atom asserts that k IS one of its domain): one
+            # path per constant the key can equal on this path, each with an ordinary constant-key store -- the same
+            # case split dict_get makes for a read.  (CPython: the key's value decides the slot; nothing else happens.)
+            dom = list(idx.domain)
+            idx = dom[st.choose([idx == dd for dd in dom])]
         if isinstance(idx, Sym):
             raise Unsupported("dict store with symbolic key")
         obj.d[idx] = v
@@ -659,6 +666,12 @@ def _sym_extreme(ip, st, args, kw, want_max):
         _raise(ValueError, "max() arg is an empty sequence" if want_max else "min() arg is an empty sequence")
     w = st.fresh_int("argmax" if want_max else "argmin")
     st.assume(both(V._cmp(">=", w, 0), V._cmp("<", w, n)))
+    # contract-side hooks `st.ghost["witness_hooks"]`: called with (sequence, witness index) BEFORE the element at the
+    # witness is evaluated, so that a contract can instantiate facts it has proved for every index (per-index
+    # postconditions / loop invariants proved by universal generalisation) at this index -- e.g. "every key of this
+    # dict is positive" ahead of the division in `max(h / w for w, h in d.items())`.  Hooks may only assume such facts.
+    for hook in list(st.ghost.get("witness_hooks", [])):
+        hook(v, w)
     m = Q.seq_get(v, w)
     if not is_num(m):
         raise Unsupported("min/max over a symbolic sequence of non-numbers")
@@ -1045,6 +1058,8 @@ def _quantified_any_all(ip, st, v, want_any):
 
 
 def b_any(ip, st, x):
+    if isinstance(x, Q.GuardedSeq):
+        return x.fold_any()
     v = ip.iter_view(st, st.force(x))
     if isinstance(v, LRef):
         v = v.seq
@@ -1057,6 +1072,8 @@ def b_any(ip, st, x):
 
 
 def b_all(ip, st, x):
+    if isinstance(x, Q.GuardedSeq):
+        return x.fold_all()
     v = ip.iter_view(st, st.force(x))
     if isinstance(v, LRef):
         v = v.seq
@@ -1216,58 +1233,77 @@ def b_chr(ip, st, n):
         _raise(ValueError, str(ex))
 
 
-class SeqIter(ModelObj):
-    """`iter(x)` for a sequence value x (tuple, list, range, reversed(...), str ...): CPython's sequence iterator -- a
-    position that starts at 0; `next(it)` hands out x[position] and advances while position < len(x) (for a list: its
-    length at that moment, the iterator is live), else raises StopIteration (or returns the default given) and the
-    iterator stays exhausted.  Only `next()` and `iter(it) is it` are modelled (a `for` over a partly consumed iterator is
-    not).  Cross-check against CPython: spec/xcheck_cases.py x_iter_next."""
+def b_next(ip, st, it, *default):
+    if isinstance(it, ListIter):
+        if default and not it.more(st):
+            return default[0]
+        return it.step(ip, st)
+    if isinstance(it, ModelObj):
+        return it.py_call(ip, st, "__next__", [], {})
+    raise Unsupported("next() of a non-model iterator")
 
-    def __init__(self, seq):
-        self.seq = seq
+
+class ListIter(ModelObj):
+    """`iter(<list or tuple>)` -- CPython's list / tuple iterator: (the sequence OBJECT, an index).  `next()` hands
+    out `seq[index]` and increments while `index < len(seq)` as the list is NOW (a list iterator sees items appended
+    after it was created); once it has raised StopIteration it stays exhausted, whatever is appended later (CPython
+    drops its reference to the list).  `for x in it` advances it one item per iteration and leaves it where a `break`
+    stopped (Interp.s_For); `list(it)`, `tuple(it)`, `lst.extend(it)`, a comprehension over it drain what is left.
+    `iter(it)` is `it`.  The index is a concrete number (it only moves by these operations), so a path forks only on
+    "is there another item" when the length is symbolic.  An iterator is always true.
+    Cross-check against CPython on concrete lists: contracts/C20_shards.py static check
+    `list-iterator-model-agrees-with-cpython`."""
+
+    is_iterator = True
+
+    def __init__(self, src):
+        self.src = src  # LRef (live list) or an immutable sequence value
         self.pos = 0
         self.done = False
 
-    def next(self, ip, st, default=()):
-        n = Q.seq_len(self.seq)
-        more = False if self.done else (self.pos < n if isinstance(n, int) and isinstance(self.pos, int) else st.branch(V._cmp("<", self.pos, n)))
-        if more:
-            v = ip._iter_elem(self.seq, self.pos)
-            self.pos = self.pos + 1
-            return v
-        self.done = True
-        if default:
-            return default[0]
-        raise PyRaise(SExc(StopIteration, (), site="builtin next"))
+    def more(self, st):
+        if self.done:
+            return False
+        n = Q.seq_len(self.src)
+        more = (self.pos < n) if isinstance(n, int) else st.branch(V._cmp("<", self.pos, n))
+        if not more:
+            self.done = True
+        return more
+
+    def step(self, ip, st):
+        if not self.more(st):
+            _raise(StopIteration, "")
+        e = ip._iter_elem(self.src, self.pos)
+        self.pos += 1
+        return e
 
     def py_call(self, ip, st, name, args, kwargs):
         if name == "__next__" and not args and not kwargs:
-            return self.next(ip, st)
+            return self.step(ip, st)
         if name == "__iter__" and not args and not kwargs:
             return self
-        raise Unsupported(f"method {name} of a sequence iterator")
+        raise Unsupported(f"method {name} of a list iterator")
+
+    def py_iter(self, ip, st):
+        """Drain: the items from the index on, as a sequence value; the iterator is exhausted afterwards."""
+        if self.done:
+            return ()
+        rest = get_subscript(ip, st, self.src, SSlice(self.pos, None, None))
+        self.done = True
+        return rest.seq if isinstance(rest, LRef) else rest
 
 
 def b_iter(ip, st, x, *sentinel):
     if sentinel:
         raise Unsupported("iter(callable, sentinel)")
     x = st.force(x)
-    if isinstance(x, SeqIter):
+    if isinstance(x, ListIter):
         return x
-    if isinstance(x, ModelObj):
-        raise Unsupported(f"iter() of {type(x).__name__}")
-    v = ip.iter_view(st, x)
-    if not (isinstance(v, (tuple, SSeq, SRange, LRef)) or getattr(v, "is_text", False)):
-        raise Unsupported(f"iter() of {type(v).__name__}")
-    return SeqIter(v)
-
-
-def b_next(ip, st, it, *default):
-    if isinstance(it, SeqIter):
-        return it.next(ip, st, default)
-    if isinstance(it, ModelObj):
-        return it.py_call(ip, st, "__next__", [], {})
-    raise Unsupported("next() of a non-model iterator")
+    if isinstance(x, (LRef, tuple)) or (isinstance(x, SSeq) and not getattr(x, "is_text", False)):
+        if isinstance(x, LRef) and Q.is_nested(x.seq):
+            raise Unsupported("iter() of a nested list")
+        return ListIter(x)
+    raise Unsupported(f"iter() of {type(x).__name__}")
 
 
 def b_id(ip, st, x):
